@@ -748,6 +748,13 @@ fn near_valid(t: &mut Tape, ctx: &mut Ctx) -> R {
         }
     };
 
+    judge_string(class, s, claim, ctx)
+}
+
+/// Verdict on one constructed string (shared by `near_valid` and `near_valid_ext`): the reference
+/// parser is the second opinion on the construction; the library must agree with it under
+/// `from_str` and all three parameter sets.
+fn judge_string(class: String, s: String, claim: Claim, ctx: &mut Ctx) -> R {
     // the reference parser is the second opinion on every constructed string
     let refv = ra::ref_parse(&s);
     match (&claim, &refv) {
@@ -773,9 +780,11 @@ fn near_valid(t: &mut Tape, ctx: &mut Ctx) -> R {
             ctx.nontrivial(&("valid", &s));
         }
         None => {
-            let mut results = vec![("from_str".to_string(), lib_from_str(&s)?)];
+            // (a panic / allocation failure of the guard is reported together with the string)
+            let named = |f: Failure| Failure { msg: clip(format!("{} on the string {:?} [{}]", f.msg, s, class)), panic_loc: f.panic_loc };
+            let mut results = vec![("from_str".to_string(), lib_from_str(&s).map_err(named)?)];
             for i in 0..3 {
-                results.push((format!("parse_with_params({})", NETS[i].name), lib_parse_with(&s, i)?));
+                results.push((format!("parse_with_params({})", NETS[i].name), lib_parse_with(&s, i).map_err(named)?));
             }
             ctx.evals_n(4);
             let accepted = results.iter().skip(1).filter(|(_, r)| r.is_ok()).count();
@@ -802,13 +811,14 @@ fn near_valid(t: &mut Tape, ctx: &mut Ctx) -> R {
                             describe(&got)
                         )));
                     }
-                    check_invariant(&s, &got)?;
+                    let also = check_invariant(&s, &got).err().map(|f| format!(" (moreover: {})", f.msg)).unwrap_or_default();
                     return Err(Failure::new(format!(
-                        "{} accepts {:?} [{}] as {}; the string is not a valid address of any network",
+                        "{} accepts {:?} [{}] as {}; the string is not a valid address of any network{}",
                         how,
                         s,
                         class,
-                        describe(&got)
+                        describe(&got),
+                        also
                     )));
                 }
             }
@@ -816,6 +826,108 @@ fn near_valid(t: &mut Tape, ctx: &mut Ctx) -> R {
         }
     }
     Ok(())
+}
+
+/// Strings the first seventeen classes do not build (a separate sub-check so that the tapes of
+/// `near_valid` keep their meaning):
+/// * base58check strings whose payload stops right after the prefix byte(s), or inside / right
+///   after the blinding key (total payload lengths 0, 1, 2, 3, 34, 35, 36 and a few random ones);
+/// * a valid address with one character of junk: white space / NUL / a stray separator in front
+///   or behind, or one data character replaced by a character outside the alphabet.
+/// None of them is an address; a parser that is "liberal" about them would break the
+/// canonical-form clause (display of the parsed value differs from the lower-cased input).
+fn near_valid_ext(t: &mut Tape, ctx: &mut Ctx) -> R {
+    let net = t.below(3);
+    let n = &NETS[net];
+    let (class, s, claim): (String, String, Claim) = match t.below(4) {
+        0 | 1 => {
+            // degenerate base58 payloads
+            let key = valid_key33(t);
+            let pre = if t.bool() { n.p2pkh } else { n.p2sh };
+            let shape = t.below(10);
+            let (tag, payload): (&str, Vec<u8>) = match shape {
+                0 => ("empty-payload", vec![]),
+                1 => ("blinded-prefix-alone", vec![n.blinded]),
+                2 => ("version-prefix-alone", vec![pre]),
+                3 => ("blinded-prefix+version-prefix", vec![n.blinded, pre]),
+                4 => ("blinded-prefix+version-prefix+1-byte", vec![n.blinded, pre, key[0]]),
+                5 => ("version-prefix+1..2-bytes", {
+                    let mut p = vec![pre];
+                    let k = 1 + t.below(2);
+                    p.extend_from_slice(&t.bytes(k));
+                    p
+                }),
+                6 | 7 | 8 => {
+                    // blinded: cut inside the key (34), right after it (35), one byte into the hash (36)
+                    let total = [34usize, 35, 36][shape - 6];
+                    let mut p = vec![n.blinded, pre];
+                    p.extend_from_slice(&key);
+                    p.extend_from_slice(&t.bytes(3));
+                    p.truncate(total);
+                    (["blinded-payload-34-bytes(key-cut)", "blinded-payload-35-bytes(key-only)", "blinded-payload-36-bytes(key+1)"][shape - 6], p)
+                }
+                _ => {
+                    // any other wrong total length, blinded or not (21 and 55 are the valid ones)
+                    let blinded = t.bool();
+                    let mut total = t.below(60);
+                    let valid_total = if blinded { 55 } else { 21 };
+                    if total == valid_total {
+                        total += 1;
+                    }
+                    let mut p = if blinded { vec![n.blinded, pre] } else { vec![pre] };
+                    if blinded {
+                        p.extend_from_slice(&key);
+                    }
+                    p.extend_from_slice(&t.bytes(24));
+                    p.truncate(total);
+                    ("other-wrong-length", p)
+                }
+            };
+            (format!("base58-degenerate:{}", tag), ra::base58check(&payload), Claim::Invalid)
+        }
+        _ => {
+            // a valid address plus one character of junk
+            let a = gen_ref_addr(t);
+            let good = a.encode();
+            let good = if a.is_segwit() { maybe_upper(t, good) } else { good };
+            let kind = t.below(4);
+            let mut separator_moved = kind == 2;
+            let (tag, s) = match kind {
+                0 => {
+                    let c = t.choose(&[' ', '\n', '\t', '\0', '\r']);
+                    ("junk:leading-whitespace-or-nul", format!("{}{}", c, good))
+                }
+                1 => {
+                    let c = t.choose(&[' ', '\n', '\t', '\0', '\r']);
+                    ("junk:trailing-whitespace-or-nul", format!("{}{}", good, c))
+                }
+                2 => ("junk:trailing-separator", format!("{}1", good)),
+                _ => {
+                    // one character after the prefix replaced by one that is in neither alphabet's
+                    // valid set for this form: bech32 excludes 1 b i o, base58 excludes 0 O I l
+                    let mut b = good.clone().into_bytes();
+                    let start = if a.is_segwit() { good.rfind('1').map_or(0, |p| p + 1) } else { 0 };
+                    let i = start + t.below(b.len() - start);
+                    let upper = good.bytes().any(|c| c.is_ascii_uppercase()) && a.is_segwit();
+                    b[i] = if a.is_segwit() {
+                        let c = t.choose(b"bio1");
+                        separator_moved = c == b'1';
+                        if upper { c.to_ascii_uppercase() } else { c }
+                    } else {
+                        t.choose(b"0OIl")
+                    };
+                    (
+                        if a.is_segwit() { "junk:segwit-character-outside-alphabet" } else { "junk:base58-character-outside-alphabet" },
+                        String::from_utf8_lossy(&b).to_string(),
+                    )
+                }
+            };
+            // an added '1' moves the separator: in principle the result could be a base58 string with
+            // a valid checksum (2^-32), so the reference parser decides there; the rest is invalid by construction
+            (tag.to_string(), s, if separator_moved { Claim::Undecided } else { Claim::Invalid })
+        }
+    };
+    judge_string(class, s, claim, ctx)
 }
 
 fn kf_repro() -> bool {
@@ -839,7 +951,10 @@ pub fn property() -> Property {
                classes of strings built only with the reference encoders (see histogram `near:*`); a reference parser \
                gives the verdict (must agree with the construction, else harness error); library must reject every invalid \
                one under from_str and all three parameter sets, accept valid ones under exactly one; every accepted string \
-               is checked for the payload invariant and the checksum variant. Non-trivial: blinded or version >= 1 valid \
+               is checked for the payload invariant and the checksum variant. near_valid_ext (same verdict procedure): \
+               base58check strings whose payload ends right after the prefix byte(s) or inside / right after the blinding key \
+               (payload lengths 0, 1, 2, 3, 34, 35, 36 and other wrong lengths), and valid addresses with one character of \
+               junk (leading / trailing white space or NUL, a trailing separator, one character outside the alphabet). Non-trivial: blinded or version >= 1 valid \
                addresses (distinct by content) and every near-valid string (distinct by string).",
         assumptions: &[
             "libsecp256k1's key parser is the validity predicate for blinding keys",
@@ -849,6 +964,7 @@ pub fn property() -> Property {
             Sub { name: "roundtrip", kind: Kind::Tape { max_len: 160, quick: 600_000, thorough: 9_000_000, f: roundtrip } },
             Sub { name: "constructors", kind: Kind::Tape { max_len: 400, quick: 120_000, thorough: 1_800_000, f: constructors } },
             Sub { name: "near_valid", kind: Kind::Tape { max_len: 240, quick: 1_200_000, thorough: 18_000_000, f: near_valid } },
+            Sub { name: "near_valid_ext", kind: Kind::Tape { max_len: 200, quick: 300_000, thorough: 6_000_000, f: near_valid_ext } },
         ],
         known: vec![Known {
             key: KF_BLINDED_SHORT,
